@@ -7,9 +7,10 @@ import re
 
 from harness.core import hx, unhx, Violation, excname
 
-LEAN_TARGETS = ["PoorProofs.Props.C11"]
-AUDIT_IMPORTS = ["PoorProofs.Props.C11"]
-LEAN_FILES = ["PoorModel/Digest.lean", "PoorProofs/Lemmas/Digest.lean", "PoorProofs/Props/C11.lean"]
+LEAN_TARGETS = ["PoorProofs.Props.C11", "PoorProofs.Props.PwFile"]
+AUDIT_IMPORTS = ["PoorProofs.Props.C11", "PoorProofs.Props.PwFile"]
+LEAN_FILES = ["PoorModel/Digest.lean", "PoorProofs/Lemmas/Digest.lean", "PoorProofs/Props/C11.lean",
+              "PoorModel/PwFile.lean", "PoorProofs/Lemmas/PwFile.lean", "PoorProofs/Props/PwFile.lean"]
 THEOREMS = ["Poor.Props.C11.gate_run_iff",
             "Poor.Props.C11.C11_no_header",
             "Poor.Props.C11.C11_sound",
@@ -21,12 +22,16 @@ THEOREMS = ["Poor.Props.C11.gate_run_iff",
             "Poor.Props.C11.C11_wrong_secret_collision",
             "Poor.Props.C11.C11_no_error",
             "Poor.Digest.scanAuthF_render", "Poor.Digest.authDict_render", "Poor.Digest.C11_wire",
-            "Poor.Props.C11.C11_complete_wire"]
+            "Poor.Props.C11.C11_complete_wire",
+            "Poor.PwFile.load_render", "Poor.PwFile.load_render_noeol", "Poor.PwFile.find_load", "Poor.PwFile.parseLine_line"]
 TRUSTED_BASE = ["model Poor.Digest hand-written from digest.py:33-190, request.py:27 and 556-568; the hash functions are "
                 "parameters of the model (theorems hold for every function; what soundness needs of them - injectivity on "
                 "the compared strings - is an explicit hypothesis); the correspondence runs install one injective stand-in "
                 "hash on both sides, the oracle uses hashlib through an independent RFC 7616 client",
                 "nonce validity is Poor.Token.checkToken (property C16)",
+                "model Poor.PwFile of PasswordMap.load/.write/.find (digest.py:200-250): text-mode line iteration with "
+                "universal newlines, str.strip with Python's table of white space, str.split(':'); compared with the real "
+                "class on random file texts on every run",
                 "the regular expression RE_AUTHORIZATION is re-stated as a scanner (pattern text pinned by Gen.Patterns); "
                 "\\w is modelled for code points below 256 (WSGI header values are latin-1 strings)"]
 ASSUMPTIONS = ["duplicate fields: the last occurrence counts (dict semantics of the tokenizer)",
@@ -250,6 +255,21 @@ BROKEN = ["Digest", "Digest ", "digest", "Basic dXNlcjpwdw==", "Bearer abc", "Di
 def generate(rng, tier):
     big = tier == "thorough"
     cases = []
+    # password files: well-formed tables in the three line-end conventions, with and without the last line end, and random
+    # texts over separators, line ends and every kind of white space str.strip knows
+    alpha = ["a", "b", "user", "Zone", "0f3", ":", ":", "\n", "\n", "\r\n", "\r", " ", "\t", "\xa0", "\x1c", "\x85", "\u2028",
+             "é", "\u3000", "\x0b", "x y"]
+    for _ in range(2000 if big else 400):
+        if rng.random() < 0.5:
+            eol = rng.choice(["\n", "\n", "\r\n", "\r"])
+            rows = ["%s:%s:%s" % (rng.choice(["a", "bob", "é x", "A", " lead", "trail ", "a\u2028b", ""]),
+                                  rng.choice(["Zone", "Admin Zone", "Zóna", "z"]),
+                                  rng.choice(["0f3a", "", "dead beef", "ff\xa0", "0" * 32]))
+                    for _ in range(rng.randrange(0, 5))]
+            text = eol.join(rows) + rng.choice(["", eol, eol + eol])
+        else:
+            text = "".join(rng.choice(alpha) for _ in range(rng.randrange(0, 14)))
+        cases.append("C11 pw " + hx(text.encode("utf-8")))
     # tokenizer / dictionary
     for h in BROKEN:
         cases.append("C11 scan " + hx(wire(h)))
@@ -314,13 +334,36 @@ def generate(rng, tier):
 
 
 def to_model(case):
-    return [] if case.split()[1] == "e2e" else [case]
+    t = case.split()
+    if t[1] == "pw":
+        return ["PW load " + t[2]]
+    return [] if t[1] == "e2e" else [case]
 
 
 def observe(case):
     from poorwsgi.request import RE_AUTHORIZATION
     t = case.split()
     try:
+        if t[1] == "pw":
+            # `pw <file text>`: what PasswordMap.load makes of a password file (the table as find() sees it)
+            import tempfile
+            from poorwsgi.digest import PasswordMap
+            d = tempfile.mkdtemp(prefix="verif_c11_")
+            try:
+                path = os.path.join(d, "users.digest")
+                with open(path, "wb") as fh:
+                    fh.write(unhx(t[2]))
+                pm = PasswordMap(path)
+                try:
+                    pm.load()
+                except ValueError:
+                    return "error"
+                rows = sorted("%s:%s:%s" % (hx(r.encode()), hx(u.encode()), hx(dg.encode()))
+                              for r, us in pm.items() for u, dg in us.items())
+                return ",".join(rows) or "empty"
+            finally:
+                import shutil
+                shutil.rmtree(d, ignore_errors=True)
         if t[1] == "scan":
             h = unhx(t[2]).decode()
             return ",".join("%s=%s" % (hx(k), hx(v)) for k, v in RE_AUTHORIZATION.findall(h.strip())) or "none"
